@@ -45,11 +45,48 @@ def params(draw):
 
 @st.composite
 def _cases(draw, max_atoms):
-    return {"structure": draw(messy.structures(max_atoms=max_atoms)), "params": draw(params())}
+    return {"structure": draw(messy.structures(max_atoms=max_atoms)), "params": draw(params()), "crit": draw(crits())}
 
 
 def strategy(tier):
     return _cases(80 if tier == "quick" else 300)
+
+
+CRIT_DELTAS = [-3e-7, 3e-7, -1e-9, 1e-9, -1e-5, 1e-5, -6e-7, 6e-7]
+
+
+def crits(share=1):
+    """optional request to put the bond threshold right next to (never on) a contact that decides connectivity"""
+    return st.one_of(*([st.none()] * (2 if share == 1 else 1)), *([st.fixed_dictionaries({"k": st.integers(0, 10 ** 6), "delta": st.sampled_from(CRIT_DELTAS)})] * share))
+
+
+def critical_threshold(s, rad, crit, lo=0.3, hi=1.2):
+    """The structure's bonding graph changes its connectivity exactly at the weights of the minimum spanning tree of the
+    radius-corrected minimum-image distances (independent oracle).  Returns such a weight (the crit['k']-th inside [lo, hi])
+    plus crit['delta'] - a threshold 1e-9 .. 1e-5 away from a deciding contact - or None."""
+    from scipy.sparse.csgraph import minimum_spanning_tree
+    cell = np.asarray(s.get_cell())
+    pbc = np.asarray(s.get_pbc())
+    if len(s) < 2 or len(s) > 400 or any((not cell[i].any()) and pbc[i] for i in range(3)):
+        return None
+    D = omic.pair_table(s.get_positions(), oim.completed(cell), pbc)[2]
+    E = D - rad[:, None] - rad[None, :]
+    W = E + 50.0
+    np.fill_diagonal(W, 0.0)
+    T = minimum_spanning_tree(W).toarray()
+    w = np.sort(T[T > 0] - 50.0)
+    w = w[(w >= lo) & (w <= hi)]
+    if len(w) == 0:
+        return None
+    # distinct deciding contacts only (symmetry-equivalent contacts coincide to rounding: keep one per 1e-4 bin, and stay away
+    # from any OTHER contact of the whole table by more than 10x |delta| so that only the chosen one is near the threshold)
+    w0 = float(w[crit["k"] % len(w)])
+    thr = w0 + crit["delta"]
+    near = np.abs(E - thr) < 10 * abs(crit["delta"])
+    exact = np.abs(E - w0) < 1e-12
+    if (near & ~exact).any():
+        return None
+    return thr
 
 
 def radii_for(p, nums):
@@ -140,6 +177,11 @@ def run_case(desc):
     cell = np.asarray(s.get_cell())
     zero_per = any((not cell[i].any()) and pbc[i] for i in range(3))
     out.cls(*messy.labels(desc["structure"], s), "radii=" + p["radii"])
+    if desc.get("crit"):
+        thr = critical_threshold(s, np.asarray(rad, float), desc["crit"])
+        if thr is not None:
+            p = dict(p, bond_threshold=thr)
+            out.cls("threshold-next-to-deciding-contact")
     counters = install_counters()
     ACT.clear()
     snap = snapshot(s)
